@@ -120,7 +120,7 @@ def save_replay(pid, doc, raw=None, ext="json"):
 def violation(pid, path, what=""):
     sys.stdout.write("VIOLATION property=%s replay=%s\n" % (pid, path))
     if what:
-        sys.stdout.write("  what: %s\n" % what.replace("\n", " ")[:600])
+        sys.stdout.write("  what: %s\n" % what.replace("\n", " ")[:1800])
     sys.stdout.flush()
 
 
